@@ -9,8 +9,14 @@ Case kinds
   mread   read a generated (often malformed) manifest text
   tl      build a TaggedProductList, write, read back (for a reader flavor), write again
   tlread  read a generated tag-list text
-  remap   Mapping.add rows, remapEntries on a dependency list, inverse(), apply/undo queries
+  remap   Mapping.add rows, remapEntries on a dependency list, inverse(), apply/undo queries, noReinstall
+  merge   two tables of rows, Mapping.merge(other, overwrite), apply on a dependency list
+  rfile   generated manifest.remap texts in one or two customisation directories, remapEntries(mapping, mode)
+          with extra rows, the mapping left in the manifest, the products declared with version dummy;
+          the reader alone with overwrite on and off
+  print   str(Mapping) of a table, and the reader on that text
 """
+import re
 import json
 import os
 import shutil
@@ -70,10 +76,22 @@ def dec_fmap(s):
             vm = []
             for ve in (vs.split(",") if vs else []):
                 v, q, w = ve.split(">")
-                vm.append([dec(v), dec(q), dec(w)])
+                vm.append([dec(v), dec(q), dec_opt(w)])
             pm.append([dec(p), vm])
         out.append([dec(f), pm])
     return out
+
+
+def dec_rows(s):
+    out = []
+    for r in (s.split("|") if s else []):
+        p, v, q, w, f = r.split(",")
+        out.append([dec(p), dec(v), dec_opt(q), dec_opt(w), dec(f)])
+    return out
+
+
+def enc_texts(texts):
+    return enc_list("|", [t for t in texts if t is not None])
 
 
 def enc_tl(entries):
@@ -260,6 +278,94 @@ def gen_remap(rng):
             "deps": deps, "style": style}
 
 
+def gen_deps_small(rng, prods=("a", "b", "c", "d", "e", "f"), vers=("1", "2", "3", "5", "9")):
+    deps = []
+    for _ in range(rng.choice([1, 2, 3, 5, 8])):
+        d = gen_dep(rng, False)
+        d["product"] = rng.choice(prods)
+        d["version"] = rng.choice(vers)
+        d["distid"] = rng.choice([None, "a-1.tar.gz", "search"])
+        deps.append(d)
+    return deps
+
+
+def gen_merge(rng):
+    return {"kind": "merge", "rows": gen_rows(rng, "free"), "other": gen_rows(rng, "free"),
+            "overwrite": rng.random() < 0.5, "fl": rng.choice(["Linux64", "Linux64", "generic", "Darwin"]),
+            "deps": gen_deps_small(rng)}
+
+
+RF_PRODUCTS = ["a", "b", "c", "d", "tcltk", "verbose", "[x]", "p=q", "a]"]
+RF_INV = ["", "", ":1", ":2", ":3", ":any", ":Any", ":*", ":", ":1:2", ":none"]
+RF_OUT = ["1", "2", "3", "9", "None", "none", "any", "dummy", "e:2", "e:dummy", "e:", "e:None", "b:1", "a:1:2",
+          "noReinstall", "e:NOREINSTALL", "Any"]
+RF_FLAVOR = ["", "", "", "generic", "Linux64", "Darwin", "Linux64 extra"]
+RF_PREFIX = ["", "", "", "", "[create]", "[create] ", "[create]\t", "[install]", "[ create ]", "[create", "[]", "[c]x]"]
+RF_SEP = [" ", "  ", "\t", "    ", " \t", "\x0b", "\x1c"]
+RF_OTHER = ["", "   ", "# a comment", "  # indented", "#", "verbose=1", "verbose = True", " verbose=0 trailing",
+            "verbose=2", "verbose", "verbose = Truex", "[create]", "[create] # nothing", "[create] verbose=1",
+            ":1 2", "a :1", "a 2:", "a :2", "a\t:", "x#y 1", "a:1 2#c", "a:1#c 2", "\x0ba:3 9\x0c"]
+
+
+def gen_remap_line(rng):
+    if rng.random() < 0.22:
+        return rng.choice(RF_OTHER)
+    sep = rng.choice(RF_SEP)
+    fields = [rng.choice(RF_PRODUCTS) + rng.choice(RF_INV)]
+    r = rng.random()
+    if r < 0.85:
+        fields.append(rng.choice(RF_OUT))
+        fl = rng.choice(RF_FLAVOR)
+        if fl:
+            fields.append(fl)
+    line = rng.choice(RF_PREFIX) + sep.join(fields)
+    r = rng.random()
+    if r < 0.1:
+        line += rng.choice(["  # tail", "#tail", " #", "\t# x # y"])
+    elif r < 0.2:
+        line = rng.choice([" ", "\t"]) + line + rng.choice(["", " ", "\t "])
+    return line
+
+
+def gen_remap_text(rng):
+    lines = [gen_remap_line(rng) for _ in range(rng.choice([0, 1, 1, 2, 3, 4, 6]))]
+    nl = rng.choice(["\n", "\n", "\n", "\r\n", "\r"])
+    return nl.join(lines) + (nl if rng.random() < 0.8 else "")
+
+
+def gen_rfile(rng):
+    texts = [gen_remap_text(rng)]
+    r = rng.random()
+    if r < 0.35:
+        texts.append(gen_remap_text(rng))
+    elif r < 0.45:
+        texts.insert(rng.choice([0, 1]), None)          # a directory without manifest.remap
+    extra = gen_rows(rng, "free") if rng.random() < 0.5 else []
+    deps = gen_deps_small(rng, prods=("a", "b", "c", "d", "e", "tcltk"), vers=("1", "2", "3", "9"))
+    return {"kind": "rfile", "texts": texts, "mode": rng.choice([None, None, "create", "create", "install", ""]),
+            "extra": extra, "fl": rng.choice(["Linux64", "Linux64", "generic", "Darwin"]), "deps": deps,
+            "known": sorted(set(rng.choice(["e", "b", "tcltk"]) for _ in range(rng.choice([0, 0, 1, 2]))))}
+
+
+PR_WORDS = ["a", "b", "c", "py-x", "q_1"]
+PR_VERS = ["1", "2.0", "any", "svn+1", "1:2", "*"]
+
+
+def gen_print(rng):
+    rows = []
+    odd = rng.random() < 0.3
+    for _ in range(rng.choice([0, 1, 2, 3, 5])):
+        p = rng.choice(PR_WORDS + (["x#y", "[m]p", "verbose=1", "p:q", "p=q", "verbose"] if odd else []))
+        v = rng.choice(PR_VERS + (["Any", "v#1"] if odd else []))
+        if rng.random() < 0.25:
+            q, w = rng.choice([None, None, "e"] if odd else [None]), None
+        else:
+            q = rng.choice([None, p, "e", "f-2"] + (["e:f"] if odd else []))
+            w = rng.choice(["1", "2.0", "3+1", "1:2"] + (["any", "None", "none", "noReinstall", "w#1"] if odd else []))
+        rows.append([p, v, q, w, rng.choice(["generic", "generic", "Linux64", "Darwin"])])
+    return {"kind": "print", "rows": rows}
+
+
 # ------------------------------------------------------------------ implementation (forked child)
 
 def _dep_out(p):
@@ -358,11 +464,39 @@ def impl_batch(cases, tmp):
                     out.append({"read": {"err": "BadTable"}})
                 except IndexError:
                     out.append({"read": {"err": "Crash"}})
+            elif k == "merge":
+                mp, other = S.Mapping(), S.Mapping()
+                for p, v, q, w, f in c["rows"]:
+                    mp.add(p, v, q, w, f)
+                for p, v, q, w, f in c["other"]:
+                    other.add(p, v, q, w, f)
+                mp.merge(other, overwrite=c["overwrite"])
+                out.append({"mapping": [_dump(mp._mapping), _dump(mp._noReinstall)],
+                            "apply": [list(mp.apply(d["product"], d["version"], c["fl"])) for d in c["deps"]]})
+            elif k == "rfile":
+                out.append(impl_rfile(c, S, eups, hooks, Stub, tmp, devnull, wr))
+            elif k == "print":
+                mp = S.Mapping()
+                for p, v, q, w, f in c["rows"]:
+                    mp.add(p, v, q, w, f)
+                res = {"text": str(mp), "mapping": [_dump(mp._mapping), _dump(mp._noReinstall)]}
+                d = os.path.join(tmp, "pr")
+                os.makedirs(d, exist_ok=True)
+                wr(os.path.join(d, "manifest.remap"), res["text"])
+                m = S.Manifest("top", "1", eupsenv=Stub("unused"), log=devnull)
+                try:
+                    back = m._readRemapFile(d, S.Mapping(), True, None)
+                    res["back"] = [_dump(back._mapping), _dump(back._noReinstall)]
+                    res["same"] = (back._mapping == mp._mapping)
+                except AttributeError:
+                    res["back"] = {"err": "Crash"}
+                out.append(res)
             elif k == "remap":
                 mp = S.Mapping()
                 for p, v, q, w, f in c["rows"]:
                     mp.add(p, v, q, w, f)
                 res = {"mapping": [_dump(mp._mapping), _dump(mp._noReinstall)]}
+                res["norein"] = [bool(mp.noReinstall(d["product"], d["version"], c["fl"])) for d in c["deps"]]
                 eups.flavor = lambda fl=c["fl"]: fl
                 m = S.Manifest("top", "1", eupsenv=Stub(c["fl"]), log=devnull)
                 for d in c["deps"]:
@@ -388,6 +522,63 @@ def impl_batch(cases, tmp):
         except Exception as e:  # noqa
             out.append({"crash": type(e).__name__ + ": " + str(e)[:200]})
     return out
+
+
+def impl_rfile(c, S, eups, hooks, Stub, tmp, devnull, wr):
+    """remapEntries(mapping, mode) with manifest.remap files in the customisation directories"""
+    import sys
+    dirs = []
+    for n, t in enumerate(c["texts"]):
+        d = os.path.join(tmp, "cd%d" % n)
+        os.makedirs(d, exist_ok=True)
+        fn = os.path.join(d, "manifest.remap")
+        if os.path.exists(fn):
+            os.unlink(fn)
+        if t is not None:
+            wr(fn, t)
+        dirs.append(d)
+    known, declared = set(c["known"]), []
+
+    class Env(Stub):
+        def findProduct(self, name, version=None):
+            return name if (version == "dummy" and name in known) else None
+
+    def declare(productName, versionName, productDir=None, tablefile=None, **kw):
+        declared.append([productName, versionName, productDir, tablefile])
+        known.add(productName)
+
+    saved = (hooks.customisationDirs, eups.declare, sys.stderr)
+    hooks.customisationDirs = [None] + dirs            # an unset directory is skipped
+    eups.declare = declare
+    eups.flavor = lambda fl=c["fl"]: fl
+    sys.stderr = devnull
+    res = {}
+    try:
+        mp = S.Mapping()
+        for p, v, q, w, f in c["extra"]:
+            mp.add(p, v, q, w, f)
+        m = S.Manifest("top", "1", eupsenv=Env(c["fl"]), log=devnull)
+        for d in c["deps"]:
+            m.addDependency(d["product"], d["version"], d["flavor"], d["table"], d["dir"], d["distid"],
+                            isOptional=d["opt"])
+        try:
+            m.remapEntries(mapping=mp, mode=c["mode"])
+            res["mapping"] = [_dump(m.mapping._mapping), _dump(m.mapping._noReinstall)]
+            res["remap"] = [_dep_out(p) for p in m.getProducts()]
+            res["declares"] = declared
+        except AttributeError:
+            res["err"] = "Crash"
+        first = [n for n, t in enumerate(c["texts"]) if t is not None]
+        if first:
+            for ow in (True, False):
+                try:
+                    back = m._readRemapFile(dirs[first[0]], S.Mapping(), ow, c["mode"])
+                    res["read%d" % ow] = [_dump(back._mapping), _dump(back._noReinstall)]
+                except AttributeError:
+                    res["read%d" % ow] = {"err": "Crash"}
+    finally:
+        hooks.customisationDirs, eups.declare, sys.stderr = saved
+    return res
 
 
 def queries(c):
@@ -428,8 +619,28 @@ def model_lines(c, impl):
         return ls
     if k == "tlread":
         return ["\t".join(["tlread", enc(c["tag"]), enc_opt(c["rfl"]), enc(c["text"])])]
+    if k == "merge":
+        return ["\t".join(["merge", enc_rows(c["rows"]), enc_rows(c["other"]), B(c["overwrite"])])]
+    if k == "rfile":
+        texts = enc_texts(c["texts"])
+        ls = ["\t".join(["remaprows", enc_opt(c["mode"]), texts]),
+              "\t".join(["remapentries", enc_rows(c["extra"]), texts, enc_opt(c["mode"]), enc(c["fl"]), enc_deps(c["deps"])]),
+              "\t".join(["declares", enc_rows(c["extra"]), texts, enc_opt(c["mode"]), enc(c["fl"]),
+                         enc_list(",", c["known"]), enc_deps(c["deps"])])]
+        first = [t for t in c["texts"] if t is not None]
+        if first:
+            ls.append("\t".join(["readremap", "1", enc_opt(c["mode"]), enc(first[0])]))
+            ls.append("\t".join(["readremap", "0", enc_opt(c["mode"]), enc(first[0])]))
+        return ls
+    if k == "print":
+        ls = ["\t".join(["print", enc_rows(c["rows"])]), "\t".join(["mapping", enc_rows(c["rows"])])]
+        if "text" in impl:
+            ls.append("\t".join(["readremap", "1", "N", enc(impl["text"])]))
+        return ls
     if k == "remap":
         ls = ["\t".join(["mapping", enc_rows(c["rows"])]),
+              "\t".join(["norein", enc_rows(c["rows"]), enc(c["fl"]),
+                         ";".join(enc(d["product"]) + "," + enc(d["version"]) for d in c["deps"])]),
               "\t".join(["remap", "1", enc_rows(c["rows"]), enc(c["fl"]), enc_deps(c["deps"])]),
               "\t".join(["remapspec", enc_rows(c["rows"]), enc(c["fl"]), enc_deps(c["deps"])]),
               "\t".join(["inverse", enc_rows(c["rows"])])]
@@ -437,6 +648,10 @@ def model_lines(c, impl):
             ls.append("\t".join(["undo", enc_rows(c["rows"]), enc(c["fl"]), enc(q[0]), enc(q[1])]))
         return ls
     raise ValueError(k)
+
+
+def dec_mapping(f):
+    return [dec_fmap(f[1] if len(f) > 1 else ""), dec_fmap(f[2] if len(f) > 2 else "")]
 
 
 def dec_manifest(f):
@@ -469,11 +684,30 @@ def model_result(c, outs):
                 res["text2"] = dec(fs[3][1])
     elif k == "tlread":
         res["read"] = {"err": err_of(fs[0])} if fs[0][0] == "err" else dec_products(fs[0][1] if len(fs[0]) > 1 else "")
+    elif k == "merge":
+        res["mapping"] = dec_mapping(fs[0])
+    elif k == "rfile":
+        res["rows"] = {"err": err_of(fs[0])} if fs[0][0] == "err" else dec_rows(fs[0][1] if len(fs[0]) > 1 else "")
+        if fs[1][0] == "err":
+            res["err"] = err_of(fs[1])
+        else:
+            res["mapping"] = dec_mapping(fs[1])
+            res["remap"] = dec_deps(fs[1][3] if len(fs[1]) > 3 else "")
+            res["declares"] = [[p, "dummy", "none", "none"] for p in dec_list(",", fs[2][1] if len(fs[2]) > 1 else "")]
+        for f, ow in zip(fs[3:], (1, 0)):
+            res["read%d" % ow] = {"err": err_of(f)} if f[0] == "err" else dec_mapping(f)
+    elif k == "print":
+        res["text"] = dec(fs[0][1])
+        res["wf"] = fs[0][2] == "1"
+        res["mapping"] = dec_mapping(fs[1])
+        if len(fs) > 2:
+            res["back"] = {"err": err_of(fs[2])} if fs[2][0] == "err" else dec_mapping(fs[2])
     elif k == "remap":
         res["mapping"] = [dec_fmap(fs[0][1]), dec_fmap(fs[0][2])]
+        res["norein"] = [x == "1" for x in (fs[1][1].split(",") if len(fs[1]) > 1 and fs[1][1] else [])]
+        fs = [fs[0]] + fs[2:]
         res["remap"] = dec_deps(fs[1][1] if len(fs[1]) > 1 else "")
         res["spec"] = dec_deps(fs[2][1] if len(fs[2]) > 1 else "")
-        res["entry_ok"] = [x == "1" for x in (fs[2][2].split(",") if len(fs[2]) > 2 and fs[2][2] else [])]
         if fs[3][0] == "err":
             res["inverse"] = {"err": err_of(fs[3])}
         else:
@@ -648,47 +882,29 @@ def norm_in_dep(d):
     return e
 
 
-def group_bad(rows, f, p):
-    """signature of finding remap-delete: in the rows of (flavor, product) some key ends deleted, but not
-    (every key ends deleted and the any key is among them)"""
-    last = {}
-    for r in rows:
-        if r[4] == f and r[0] == p and not noreinstall(r[3]):
-            last[r[1]] = bool(r[3])
-    deleted = [k for k, live in last.items() if not live]
-    if not deleted:
-        return False
-    return not (len(deleted) == len(last) and "any" in last)
-
-
-def shadowed_identity(rows, fl, p, v):
-    """signature of finding remap-identity: a row of the running flavor maps the entry to itself and the
-    generic rows say something else about it"""
-    if fl == "generic":
-        return False
-    a = table_says([r for r in rows if r[4] == fl], fl, p, v)
-    b = table_says([r for r in rows if r[4] == "generic"], "generic", p, v)
-    return a == ("replace", p, v) and b != ("keep",) and b != a
-
-
 def one_to_one(c):
-    """rows that describe a one-to-one renaming for the running flavor: one row per (flavor, product, version),
-    explicit versions on both sides, nothing mapped to itself, no two rows of one flavor with the same target
-    (inverse() turns the whole Mapping around, flavor by flavor), and no two entries - as seen from the
-    running flavor - sent to the same target"""
+    """rows that describe a one-to-one renaming for the running flavor: one row per (flavor, product, version);
+    a replacement row has explicit versions on both sides; no two replacement rows of one flavor with the same
+    target (inverse() turns the whole Mapping around, flavor by flavor), and no two entries that are kept - as
+    seen from the running flavor - sent to the same target.  Removal rows and rows that map an entry to itself
+    are allowed."""
     rows = c["rows"]
     if table_collides(rows):
         return False
     seen = set()
     for p, v, q, w, f in rows:
-        if (f, p, v) in seen or not w or v == "any" or w == "any" or noreinstall(w) or noreinstall(v):
-            return False
-        if not p or not v or (q or p, w) == (p, v):
+        if (f, p, v) in seen or noreinstall(w):
             return False
         seen.add((f, p, v))
+        if not w:
+            continue
+        if v == "any" or w == "any" or noreinstall(v) or not p or not v:
+            return False
     img = {}
     for p, v in queries(c):
         s = table_says(rows, c["fl"], p, v)
+        if s[0] == "delete":
+            continue
         if s[0] != "replace":
             return False
         if (s[1], s[2]) in img:
@@ -703,12 +919,11 @@ def table_collides(rows):
     for p, v, q, w, f in rows:
         if noreinstall(w):
             continue
-        if w:
-            last[(f, p, v)] = (q or p, w)
-        else:
-            last.pop((f, p, v), None)
+        last[(f, p, v)] = (q or p, w) if w else None
     tg = {}
     for (f, p, v), t in last.items():
+        if t is None:
+            continue
         if (f, t) in tg:
             return True
         tg[(f, t)] = 1
@@ -738,9 +953,10 @@ def oracle_remap(c, i):
             key = json.dumps(sub, sort_keys=True)
             if key not in seen_sub:
                 seen_sub.add(key)
-                fails.append(("remap-exact", sub, e, got, "the table says %s for %s %s; remapEntries gives %s" % (
-                    table_says(c["rows"], c["fl"], d["product"], d["version"]), d["product"], d["version"],
-                    json.dumps(got)[:200])))
+                says = table_says(c["rows"], c["fl"], d["product"], d["version"])
+                fails.append(("remap-" + {"keep": "untouched", "replace": "replaced", "delete": "deleted"}[says[0]],
+                              sub, e, got, "the table says %s for %s %s; remapEntries gives %s" % (
+                                  says, d["product"], d["version"], json.dumps(got)[:200])))
     if i["remap"] != per_entry:
         fails.append(("remap-list", c, per_entry, i["remap"], "remapEntries on the list differs from entry-wise apply"))
     elif i["remap"] != exp and not fails:
@@ -753,28 +969,134 @@ def oracle_remap(c, i):
             fails.append(("inverse-undoes", c, None, i["inverse"], "inverse() refused a one-to-one table"))
         else:
             for q, (a, b) in zip(queries(c), i["undo"]):
-                if b != q:
+                if a[1] is not None and b != q:
                     fails.append(("inverse-undoes", c, q, [a, b],
                                   "apply gives %r and the inverse maps that to %r" % (a, b)))
                     break
     return fails
 
 
-def m_remap_delete(f):
-    c = f["input"]
-    if f["kind"] != "remap-exact" or c.get("kind") != "remap":
-        return False
-    return any(group_bad(c["rows"], fl, d["product"]) for d in c["deps"] for fl in (c["fl"], "generic"))
+# ---- remap files, read from the description of the format in the documentation of remapEntries
+
+VERBOSE_RE = re.compile(r"^\s*verbose\s*=\s*(True|False|0|1)")
 
 
-def m_remap_identity(f):
-    c = f["input"]
-    if f["kind"] != "remap-exact" or c.get("kind") != "remap":
-        return False
-    return any(shadowed_identity(c["rows"], c["fl"], d["product"], d["version"]) for d in c["deps"])
+def doc_rows(text, mode):
+    """the rows a manifest.remap text names for a mode: lines in universal-newline reading, comments from a hash
+    sign on, blank lines skipped; a line prefixed [XXX] applies only when the mode is XXX, a line without prefix
+    only when no mode is asked for; product[:version-in-manifest] [[outProduct:]desired-version] [flavor];
+    Any = any = every version; None / none / any or no desired version = delete.  "crash" when a field starts
+    with a colon (the code fails on it)."""
+    rows = []
+    for line in text.replace("\r\n", "\n").replace("\r", "\n").split("\n"):
+        h = line.find("#")
+        if h >= 0:
+            line = line[:h]
+        line = line.strip()
+        if not line:
+            continue
+        prefix = None
+        if line.startswith("["):
+            j = line.find("]", 1)
+            if j > 1:
+                prefix, line = line[1:j], line[j + 1:].lstrip()
+        if prefix is None:
+            if mode:
+                continue
+        elif mode != prefix:
+            continue
+        if VERBOSE_RE.match(line):
+            continue
+        vals = line.split()
+        if not vals:
+            continue
+        if vals[0].startswith(":"):
+            return "crash"
+        product, colon, inv = vals[0].partition(":")
+        if not colon or inv in ("any", "Any"):
+            inv = "any"
+        outp, outv = None, None
+        if len(vals) > 1:
+            if vals[1].startswith(":"):
+                return "crash"
+            a, colon, b = vals[1].partition(":")
+            outp, outv = (a, b) if b else (product, a)
+            if outv in ("any", "none", "None"):
+                outv = None
+        rows.append([product, inv, outp, outv, vals[2] if len(vals) > 2 else "generic"])
+    return rows
 
 
-MATCHERS = {"c18.remap_delete": m_remap_delete, "c18.remap_identity": m_remap_identity}
+def oracle_rfile(c, i):
+    rows = []
+    for t in c["texts"]:
+        if t is None:
+            continue
+        r = doc_rows(t, c["mode"])
+        if r == "crash":
+            return None, []
+        rows += r
+    if "err" in i:
+        return rows, [("remap-file", c, None, i["err"], "remapEntries fails on a readable manifest.remap")]
+    allrows = rows + c["extra"]             # the rows passed in take precedence over the rows of the files
+    fails = []
+    deps_in = [norm_in_dep(d) for d in c["deps"]]
+    exp, known, decl = [], set(c["known"]), []
+    for d in deps_in:
+        e = expected_remap_dep(allrows, c["fl"], d)
+        exp += e
+        if e and e[0]["version"] == "dummy" and (e[0]["product"], "dummy") != (d["product"], d["version"]) \
+                and e[0]["product"] not in known:
+            known.add(e[0]["product"])
+            decl.append([e[0]["product"], "dummy", "none", "none"])
+    if i["remap"] != exp:
+        fails.append(("remap-file", c, exp, i["remap"],
+                      "mode %r: the files and the extra rows name %s; remapEntries gives %s" % (
+                          c["mode"], json.dumps(allrows)[:300], json.dumps(i["remap"])[:300])))
+    elif i["declares"] != decl:
+        fails.append(("remap-dummy", c, decl, i["declares"], "products declared with version dummy"))
+    return rows, fails
+
+
+def oracle_merge(c, i):
+    """the merged table is the union of the rows; where both tables have a row for (flavor, product, version) the
+    other table's row wins exactly when overwrite is set"""
+    allrows = (c["rows"] + c["other"]) if c["overwrite"] else (c["other"] + c["rows"])
+    fails = []
+    for d, a in zip(c["deps"], i["apply"]):
+        s = table_says(allrows, c["fl"], d["product"], d["version"])
+        exp = [d["product"], d["version"]] if s[0] == "keep" else [s[1], s[2]] if s[0] == "replace" else None
+        if (exp is None and a[1] is not None) or (exp is not None and a != exp):
+            sub = dict(c, rows=[r for r in c["rows"] if r[0] == d["product"]],
+                       other=[r for r in c["other"] if r[0] == d["product"]], deps=[d])
+            fails.append(("remap-merged", sub, exp, a, "the two tables together say %s for %s %s; apply on the merged "
+                          "table gives %s" % (s, d["product"], d["version"], a)))
+            break
+    return fails
+
+
+def wf_print(c):
+    """tables whose print the reader must read back: fields are words without hash signs, in-products without
+    colon or equals sign and not opening a bracket, no capitalised Any, replacement versions none of
+    any/none/None/noreinstall, out-products without colon"""
+    last = {}
+    for r in c["rows"]:
+        if not noreinstall(r[3]):               # the noReinstall rows are not printed
+            last[(r[4], r[0], r[1])] = r
+    for p, v, q, w, f in last.values():
+        fields = [p, v, f] + ([q or p, w] if w else [])
+        if not all(is_word(x) and "#" not in x for x in fields):
+            return False
+        if ":" in p or "=" in p or p.startswith("[") or v == "Any":
+            return False
+        if w and (":" in (q or p) or w in ("any", "none", "None") or noreinstall(w)):
+            return False
+        if not w and q not in (None, "", p):
+            return False
+    return True
+
+
+MATCHERS = {}
 
 
 # ------------------------------------------------------------------ compare
@@ -787,11 +1109,17 @@ def shape(c):
         return "tl/%s/n=%d" % ("bad" if not wf_case_tl(c) else "wf", min(len(c["entries"]), 9))
     if k == "remap":
         return "remap/%s/rows=%d" % (c.get("style", "?"), min(len(c["rows"]), 6))
+    if k == "merge":
+        return "merge/ow=%d/rows=%d+%d" % (c["overwrite"], min(len(c["rows"]), 4), min(len(c["other"]), 4))
+    if k == "rfile":
+        return "rfile/mode=%s/files=%d/extra=%d" % (c["mode"], len(c["texts"]), min(len(c["extra"]), 1))
+    if k == "print":
+        return "print/%s/rows=%d" % ("wf" if wf_print(c) else "odd", min(len(c["rows"]), 5))
     return k
 
 
 def strip_model_only(m):
-    return {k: v for k, v in m.items() if k not in ("wf", "norm", "spec", "entry_ok")}
+    return {k: v for k, v in m.items() if k not in ("wf", "norm", "spec", "rows")}
 
 
 def run_impl(cases):
@@ -821,7 +1149,8 @@ def evaluate(ctx, cases, count=True):
         if count:
             nt = None
             if (k == "mrt" and c["deps"]) or (k == "tl" and c["entries"]) or (k == "remap" and c["rows"] and c["deps"]) \
-                    or k in ("mread", "tlread"):
+                    or k in ("mread", "tlread") or (k == "merge" and c["rows"] and c["other"]) \
+                    or (k == "rfile" and any(t and t.strip() for t in c["texts"])) or (k == "print" and c["rows"]):
                 nt = json.dumps(c, sort_keys=True)
             ctx.count(1, key=shape(c), nontrivial=nt)
         if "crash" in i or "crash" in m:
@@ -839,8 +1168,12 @@ def evaluate(ctx, cases, count=True):
             i_cmp = {kk: i[kk] for kk in ("text", "before", "read", "text2") if kk in i}
             if mi != i_cmp:
                 ctx.disagree(c, mi, i_cmp, where="tag list")
+        elif k == "print":
+            i_cmp = {kk: v for kk, v in i.items() if kk != "same"}
+            if mi != i_cmp:
+                ctx.disagree(c, mi, i_cmp, where=k)
         else:
-            if mi != i and not (k == "remap" and {kk: v for kk, v in i.items() if kk != "apply"} == mi):
+            if mi != i and not (k in ("remap", "merge") and {kk: v for kk, v in i.items() if kk != "apply"} == mi):
                 ctx.disagree(c, mi, i, where=k)
         # the python oracle against the Coq statement (evaluated on the model)
         if k == "mrt":
@@ -867,14 +1200,29 @@ def evaluate(ctx, cases, count=True):
                 exp += expected_remap_dep(c["rows"], c["fl"], d)
             if m["spec"] != exp:
                 ctx.disagree(c, m["spec"], exp, where="what the table says: coq vs python")
-            okpy = [not (group_bad(c["rows"], c["fl"], d["product"]) or group_bad(c["rows"], "generic", d["product"])
-                         or shadowed_identity(c["rows"], c["fl"], d["product"], d["version"])) for d in c["deps"]]
-            if m["entry_ok"] != okpy:
-                ctx.disagree(c, m["entry_ok"], okpy, where="finding signatures: coq vs python")
             for o in oracle_remap(c, i):
                 ctx.fail(o[0], o[1], expected=o[2], observed=o[3], what=o[4])
             if count:
                 ctx.traces_validated += 1
+        elif k == "merge":
+            for o in oracle_merge(c, i):
+                ctx.fail(o[0], o[1], expected=o[2], observed=o[3], what=o[4])
+            if count:
+                ctx.traces_validated += 1
+        elif k == "rfile":
+            rows, fails = oracle_rfile(c, i)
+            if rows is not None and m["rows"] != rows:
+                ctx.disagree(c, m["rows"], rows, where="the rows a file names: coq vs python")
+            for o in fails:
+                ctx.fail(o[0], o[1], expected=o[2], observed=o[3], what=o[4])
+            if count:
+                ctx.traces_validated += 1
+        elif k == "print":
+            if m["wf"] != wf_print(c):
+                ctx.disagree(c, m["wf"], wf_print(c), where="printable table: coq vs python")
+            if wf_print(c) and not i.get("same"):
+                ctx.fail("remap-print-parse", c, expected=i["mapping"], observed=i.get("back"),
+                         what="the reader does not read back the table Mapping.__str__ printed")
         results.append((c, m, i))
     return results
 
@@ -897,17 +1245,24 @@ def setup_ctx(ctx):
                 "required; generated manifest and tag-list texts (field counts 1-10, OPTIONAL/TRUE/FALSE prefixes, "
                 "comments, CRLF, broken headers); tag lists of 0-12 entries, homogeneous or mixed flavor, reader flavor "
                 "equal or different; remap tables of 0-6 Mapping.add rows (replace/rename/delete/noreinstall, any, "
-                "three flavors) applied to 0-12 entries, inverse() and apply-then-inverse on every mapped pair; "
+                "three flavors) applied to 0-12 entries, inverse() and apply-then-inverse on every mapped pair, "
+                "noReinstall queries; pairs of such tables merged with overwrite on/off; manifest.remap texts of 0-6 "
+                "lines (mode prefixes well- and ill-formed, comments, verbose lines, Any/any/None/none/dummy/"
+                "noReinstall, fields with extra colons, fields starting with a colon, CR/LF/CRLF, odd white space) in "
+                "one or two customisation directories (one possibly without file), mode None/create/install/empty, "
+                "with and without extra rows, known dummy products; printed tables read back; "
                 "a case is non-trivial when it has at least one entry (and one row); distinct = distinct case")
     ctx.trusted_base = common.COMMON_TRUSTED + [
         "modelled, not verified: python re (the two header patterns, non-space runs), str.split/strip/startswith/"
         "lower, percent formatting with minus-width, text-mode universal newlines, dict insertion order, sorted() on str",
-        "stub eupsenv (attributes flavor, who), hooks.customisationDirs = [], eups.flavor patched to the case's flavor"]
+        "stub eupsenv (attributes flavor, who, findProduct over a set of names), hooks.customisationDirs set to "
+        "scratch directories, eups.flavor and eups.declare patched (declare records its call)"]
     ctx.assumptions = ["fields are words: non-empty, free of python white space (code points 9-13, 28-32, 133, 160); "
                        "product names do not start with #",
                        "tags are alphanumeric (the tag is pasted unescaped into a regular expression)",
                        "the user/date/version comment lines hold no line terminator",
-                       "no manifest.remap files (customisationDirs empty); no product is remapped to version dummy"]
+                       "a declaration of a dummy version does not fail (a failure is only printed by the code)",
+                       "manifest.remap is read in an encoding that maps the generated code points to themselves"]
 
 
 def run(ctx):
@@ -927,6 +1282,12 @@ def run(ctx):
         cases.append(gen_tlread(rng))
     for _ in range(ctx.size(2500, 40000)):
         cases.append(gen_remap(rng))
+    for _ in range(ctx.size(900, 15000)):
+        cases.append(gen_merge(rng))
+    for _ in range(ctx.size(2000, 40000)):
+        cases.append(gen_rfile(rng))
+    for _ in range(ctx.size(600, 10000)):
+        cases.append(gen_print(rng))
     for c in cases[:3]:
         ctx.sample(c)
     for i in range(0, len(cases), 5000):
